@@ -3,6 +3,7 @@ parallelism: exception injection over schedules with a bounded-liveness oracle.
 DESIGN.md 5.10."""
 
 import errno
+import os
 
 from ..kernel import Sim
 from . import common, stages
@@ -43,7 +44,7 @@ STAGES += [multi_stages.MultiTanStage, multi_stages.MultiWcsStage, stages.RealCa
 
 
 def pick_stage(ch):
-    weights = [6, 5, 4, 1, 1, 1, 2, 1, 1][:len(STAGES)]
+    weights = [6, 5, 4, 2, 1, 1, 2, 1, 2][:len(STAGES)]
     tot = sum(weights)
     v = ch.draw(tot, kind="stage")
     acc = 0
@@ -81,6 +82,48 @@ class IoFault(object):
             sim.vtime_cap = sim.now + LIVENESS_BOUND + 10.0
             sim.stop_faults()
             raise OSError(errno.EIO, "injected I/O error on tile %s (%s)" % (kind, rel))
+
+
+class LoaderFault(object):
+    """A file-server hiccup beneath toasty's tile reader: from the k-th load of an existing tile file inside a worker
+    on, every load of *that* file fails with the drawn errno for the next `persist` attempts."""
+
+    def __init__(self, sim, k, err, persist):
+        self.sim = sim
+        self.k = k
+        self.err = err
+        self.persist = persist
+        self.n = 0
+        self.path = None
+        self.left = 0
+
+    def __call__(self, path):
+        from ..kernel import current_task
+        t = current_task()
+        if t is None or not t.name.startswith("w"):
+            return
+        sim = self.sim
+        if self.path is None:
+            if not os.path.exists(path):
+                return
+            n = self.n
+            self.n += 1
+            if n != self.k:
+                return
+            self.path = path
+            self.left = self.persist
+            sim.fault("injected_io_error")
+            sim.fault("injected_loader_error_%s" % errno.errorcode.get(self.err, self.err))
+            sim.event("inject-load", sim.rel(path), self.err)
+            sim.injected_at = (sim.step, sim.now)
+            sim.vtime_cap = sim.now + LIVENESS_BOUND + 10.0
+            sim.stop_faults()
+        if path == self.path and self.left > 0:
+            self.left -= 1
+            raise OSError(self.err, "injected %s while reading %s" % (errno.errorcode.get(self.err, self.err), sim.rel(path)))
+
+
+LOADER_ERRNOS = (errno.EIO, errno.ESTALE, errno.EAGAIN, errno.ETIMEDOUT, errno.EACCES, errno.ENOMEM)
 
 
 def run_intrinsic(ch, env, stage, workers, res, label):
@@ -203,7 +246,13 @@ def run_one(ch, env):
     res["config"].update(common.sched_config(sim))
     if io_mode:
         rec = stages.Recorder(sim, nyield)
-        sim.io_fault = IoFault(sim, k)
+        if ch.draw(2, kind="io_fault_level") == 1:
+            lerr = LOADER_ERRNOS[ch.draw(len(LOADER_ERRNOS), kind="loader_errno")]
+            persist = (1, 3, 8, 1000)[ch.draw(4, kind="loader_fault_attempts")]
+            sim.load_fault = LoaderFault(sim, k, lerr, persist)
+            res["config"].update(fault="tile-loader", loader_errno=errno.errorcode.get(lerr), loader_fault_attempts=persist)
+        else:
+            sim.io_fault = IoFault(sim, k)
     else:
         rec = stages.Recorder(sim, nyield, fail_at=k, error_cls=err, fail_after=fail_after)
 
